@@ -1,7 +1,7 @@
 /* C17/C18/C01: igzip/huffman.h helpers (symbol maps, bit scans, compare258/compare) -- harnesses over the
  * real static inline functions of the spliced header */
 #include "igzip_huff.h"
-uint32_t g_lcode, g_llen, g_k, w_ret;
+uint32_t g_lcode, g_llen, g_k, w_ret, g_dcode, g_dlen;
 #include "splice_defaults.h"
 #include "igzip/huffman.h"
 
